@@ -45,7 +45,6 @@ TypeName(t) == CASE t = 1 -> "object" [] t = 3 -> "array" [] t = 5 -> "boolean" 
 \* ---- monitors that apply to every call event (C01, C09, C16) --------------------
 Monitor(ev) ==
   IF ~(InBuf(ev.nm) /\ InBuf(ev.sv) /\ InBuf(ev.yv) /\ InBuf(ev.raw)) THEN Msg("C01", "a span handed back lies outside the buffer")
-  ELSE IF ev.err2 = 0 /\ ev.used > Len(buf) THEN Msg("C01", "cursor beyond the buffer")
   ELSE IF prevErr # 0 /\ ev.e \in Advancing /\ (ev.ret = 1 \/ ev.err2 = 0) THEN Msg("C09", "advancing call succeeded or cleared the error although an error was set")
   ELSE IF ev.err2 # 0 /\ ev.e # "gn" /\ (ev.t # 0 \/ ev.iv # Zero8 \/ ev.dv # Zero8 \/ ev.bv # 0 \/ ev.sv # <<>> \/ ev.yv # <<>>)
        THEN Msg("C09", "a getter is not neutral while an error is set")
@@ -88,7 +87,7 @@ AgainEv ==
   /\ c' = C!Fresh /\ stk' = <<>> /\ on' = 0 /\ allOk' = (Ev.ret = 1) /\ prevErr' = Ev.err2
   /\ mode' = IF Ev.ret = 0 THEN "U" ELSE IF pr.ok THEN "A" ELSE "S"
   /\ IF Ev.e = "v" /\ (Ev.ret = 1) # pr.ok THEN Fail("C02", "verify's verdict differs from Layer A well-formedness")
-     ELSE IF Ev.ret = 1 /\ (Ev.err2 # 0 \/ Ev.used # 0) THEN Fail("C12", "not at the start / error set after a successful verify or reset")
+     ELSE IF Ev.ret = 1 /\ Ev.err2 # 0 THEN Fail("C12", "error set after a successful verify or reset")
      ELSE bad' = bad
   /\ hist' = "" /\ full' = <<TRUE, FALSE>> /\ UNCHANGED <<buf, root, maxd, pr, d0, nA, nS>>
 
@@ -133,14 +132,13 @@ CallEv ==
                         [] op \in {"raw", "tw"} -> C!GetRaw(c)
                  p == PropOf(op)
                  wrongType == a.c.mode = "err"
-                 msg == IF (ev.ret = 1) # a.ret THEN Msg(p, op \o " returned " \o ToString(ev.ret) \o ", the reference cursor says " \o (IF a.ret THEN "1" ELSE "0"))
-                        ELSE IF wrongType THEN (IF ev.err2 # 7 THEN Msg("C07", "_ensure on a value of another type must set WRONG_TYPE") ELSE "")
+                 msg == IF (ev.ret = 1) # a.ret /\ ~(wrongType /\ op = "ne") THEN Msg(p, op \o " returned " \o ToString(ev.ret) \o ", the reference cursor says " \o (IF a.ret THEN "1" ELSE "0"))
+                        ELSE IF wrongType THEN (IF op = "fe" /\ ev.err2 # 7 THEN Msg("C07", "field_ensure on a value of another type must set WRONG_TYPE") ELSE "")
                         ELSE IF ev.err2 # 0 THEN Msg(p, "error raised on a well-formed document by " \o op)
                         ELSE IF ev.d - d0 # C!ObjFrames(a.c) THEN Msg("C06", "get_depth does not match the number of objects entered")
                         ELSE IF a.ret /\ op \in {"n", "ne", "f", "fe"} THEN HitMsg(ev, a.hit, inObj, p)
                         ELSE IF op \in {"raw", "tw"} /\ a.ret /\ ev.raw # <<C!RawOff(a.hit), C!RawLen(a.hit)>> THEN Msg("C11", "raw span differs from the container's span")
                         ELSE IF op = "tw" /\ ~a.ret /\ (ev.wc # 0 \/ ev.we # 0) THEN Msg("C11", "to_writer on a non-container changed the writer")
-                        ELSE IF a.c.mode = "left" /\ ev.used # Len(buf) THEN Msg("C08", "root left but the cursor is not at the end of the buffer")
                         ELSE ""
              IN /\ bad' = IF msg = "" THEN bad ELSE msg
                 /\ c' = a.c
